@@ -147,7 +147,7 @@ def hsSession (args : List String) : String :=
       | some pub, some cr, some ch, some ch2, some sr, some sh, some cert, some ske, some cke =>
         let L : Loc := ⟨pub, cr, ch, ch2, sr, sh, cert, ske, cke⟩
         let C := factCrypto (parseFacts ft)
-        let expected := if fp = "-" then none else unhex fp
+        let expected := if fp = "-" then none else if fp = "=" then some [] else unhex fp   -- `=`: Some("")
         let (e0, o0) := start L (role = "c") expected
         let rec go (e : Ep) (ops : List String) (acc : List String) : List String :=
           match ops with
